@@ -467,16 +467,18 @@ class VM:
             arr._elements = elements
             # Set prototype from Array constructor
             array_constructor = self.globals.get("Array")
-            if array_constructor and hasattr(array_constructor, "_prototype"):
-                arr._prototype = array_constructor._prototype
+            proto = getattr(array_constructor, "_prototype", None)
+            if isinstance(proto, JSObject):  # a script may have rebound Array
+                arr._prototype = proto
             self.stack.append(arr)
 
         elif op == OpCode.BUILD_OBJECT:
             obj = JSObject()
             # Set prototype from Object constructor
             object_constructor = self.globals.get("Object")
-            if object_constructor and hasattr(object_constructor, "_prototype"):
-                obj._prototype = object_constructor._prototype
+            proto = getattr(object_constructor, "_prototype", None)
+            if isinstance(proto, JSObject):  # a script may have rebound Object
+                obj._prototype = proto
             props = []
             for _ in range(arg):
                 value = self.stack.pop()
@@ -899,7 +901,10 @@ class VM:
                 # Create prototype object for the function
                 # In JavaScript, every function has a prototype property
                 object_constructor = self.globals.get("Object")
-                prototype = JSObject(getattr(object_constructor, "_prototype", None))
+                object_prototype = getattr(object_constructor, "_prototype", None)
+                if not isinstance(object_prototype, JSObject):
+                    object_prototype = None  # a script may have rebound Object
+                prototype = JSObject(object_prototype)
                 prototype.set("constructor", js_func)
                 js_func._prototype = prototype
 
@@ -2812,7 +2817,7 @@ class VM:
             if not isinstance(proto, JSObject):
                 object_constructor = self.globals.get("Object")
                 proto = getattr(object_constructor, "_prototype", None)
-            obj._prototype = proto
+            obj._prototype = proto if isinstance(proto, JSObject) else None
             # Call constructor with new object as 'this'
             # Mark this as a constructor call so RETURN knows to return the object
             self._invoke_js_function(
